@@ -5,6 +5,7 @@ from .. import obscure, codec
 from . import C06
 
 NEED_DEPS = False
+USES_QUERIES = True
 EXPLANATION = (
     "WHO/GUARD/FLOW/TABLE rules, universal over every call site of a node-constructing function (the bodies that build "
     "EnvelopeCase::Node, and thin wrappers around them). Each site's assertion-vector argument must match one idiom: "
@@ -80,61 +81,22 @@ def check_predicates(ctx):
         ctx.lost('C04.4/pred', 'is_subject_assertion / is_subject_obscured')
         return
     variants = adt_variants(F, CASE)
-    # is_subject_assertion: true for Assertion; for Node delegates to the subject; false otherwise
-    tb = TermBuilder(F, b)
-    sw = [x for x in switch_on(tb, b, lambda d: d[0] == 'discr' and m_call(d[1], name='case', self_suffix='Envelope') is not None)]
-    good = False
-    detail = ''
-    if len(sw) == 1:
-        regs = arm_regions(b, sw[0][0])
-        got = {}
-        tv = dict((v, bb) for v, bb in b.term(sw[0][0])['targets'])
-        for idx, vname in enumerate(variants):
-            key = idx if idx in tv else 'otherwise'
-            rds = [strip_sites(x[2]) for x in arm_ret_values(b, tb, sw[0][0], idx)]
-            got[vname] = rds
-        def rec_on_subject(v):
-            a = m_call(v, name='is_subject_assertion', self_suffix='Envelope')
-            return a is not None and obscure.child_kind(a[0]) == 'Node.subject'
-        good = all((got[v] == [('bool', True)]) if v == 'Assertion' else (len(got[v]) == 1 and rec_on_subject(got[v][0])) if v == 'Node' else (got[v] == [('bool', False)]) for v in variants)
-        detail = str({k: [fmt(x) for x in v] for k, v in got.items()})
-    if good:
-        ctx.ok('C04.4/pred', ctx.site(b), 'is_subject_assertion: Assertion->true, Node->subject.is_subject_assertion(), others->false')
+    from .. import accessors
+    n = len(accessors.shapes(variants))
+    # is_subject_assertion: the innermost subject (through any chain of node subjects) is an Assertion
+    bad = accessors.shape_table(F, b, variants, lambda sh: sh[-1] == 'Assertion')
+    if not bad:
+        ctx.ok('C04.4/pred', ctx.site(b), 'is_subject_assertion: true exactly when the innermost subject is an Assertion (%d abstract envelopes: subject chains up to depth 2)' % n)
     else:
-        ctx.fail('C04.4/pred', ctx.site(b), 'is_subject_assertion table unexpected: %s' % detail, key='C04.4/pred|assertion')
-    # is_subject_obscured = elided | encrypted | compressed of the subject
-    tbo = TermBuilder(F, o)
-    atoms = find_terms(o, tbo, lambda x: x[0] == 'call' and call_name(x) in ('is_subject_elided', 'is_subject_encrypted', 'is_subject_compressed') and strip_sites(x[2][0]) == P1)
-    for bi, si, t in ret_defs(tbo):
-        for x in walk(t):
-            if isinstance(x, tuple) and x and x[0] == 'call' and call_name(x) in ('is_subject_elided', 'is_subject_encrypted', 'is_subject_compressed'):
-                sx = strip_sites(x)
-                if sx not in atoms:
-                    atoms.append(sx)
-    want = {'is_subject_elided'}
-    if ctx.has('encrypt'):
-        want.add('is_subject_encrypted')
-    if ctx.has('compress'):
-        want.add('is_subject_compressed')
-    names = {call_name(a) for a in atoms}
-    if names != want:
-        ctx.fail('C04.4/pred', ctx.site(o), 'is_subject_obscured consults %s (expected %s)' % (sorted(names), sorted(want)), key='C04.4/pred|obscured_atoms')
-        return
-    import itertools
-    bad = []
-    for vals in itertools.product((False, True), repeat=len(atoms)):
-        env = dict(zip(atoms, vals))
-        reach = reach_under(o, tbo, env)
-        outs = set()
-        for bi, si, t in ret_defs(tbo):
-            if bi in reach:
-                outs.add(eval_bool(t, env))
-        if outs != {any(vals)}:
-            bad.append((vals, outs))
-    if bad:
-        ctx.fail('C04.4/pred', ctx.site(o), 'is_subject_obscured is not the disjunction of its three tests: %s' % bad[:3], key='C04.4/pred|obscured_table')
+        ctx.fail('C04.4/pred', ctx.site(b), 'is_subject_assertion table unexpected: (envelope, got, expected) %s' % bad[:4], key='C04.4/pred|assertion')
+    # is_subject_obscured: the innermost subject is elided, encrypted or compressed
+    OB = {'Elided', 'Encrypted', 'Compressed'}
+    bad = accessors.shape_table(F, o, variants, lambda sh: sh[-1] in OB)
+    if not bad:
+        ctx.ok('C04.4/pred', ctx.site(o), 'is_subject_obscured = the innermost subject is Elided | Encrypted | Compressed (%d abstract envelopes)' % n)
     else:
-        ctx.ok('C04.4/pred', ctx.site(o), 'is_subject_obscured = elided | encrypted | compressed (%d valuations)' % (2 ** len(atoms)))
+        ctx.fail('C04.4/pred', ctx.site(o), 'is_subject_obscured is not "innermost subject is elided | encrypted | compressed": (envelope, got, expected) %s' % bad[:4],
+                 key='C04.4/pred|obscured_table')
 
 
 def check(ctx):
